@@ -27,6 +27,9 @@ import (
 type hop struct {
 	P   int  `json:"payload"`
 	Arm bool `json:"arm_fault,omitempty"` // the injected loader fault is armed during this delivery
+	// the handler's updater is the module's updater wrapped so that it PANICS (before touching the rule
+	// manager) while this flag is armed: a custom PropertyUpdater is a public extension point
+	ArmPanic bool `json:"arm_updater_panic,omitempty"`
 }
 
 type hcase struct {
@@ -41,6 +44,7 @@ type hcase struct {
 type hobs struct {
 	Ret      int      `json:"ret"` // 0 nil, 1 error, 2 panic escaped
 	Fired    bool     `json:"loader_fault_fired,omitempty"`
+	Panicked bool     `json:"updater_panicked,omitempty"` // the wrapped updater panicked during this delivery (recovered in Handle)
 	GenCalls int      `json:"generator_calls,omitempty"`
 	InForce  []string `json:"in_force"` // sorted fingerprints
 }
@@ -120,15 +124,23 @@ func runH(c hcase, m *module) []hobs {
 	if err := m.clear(); err != nil {
 		panic(err)
 	}
-	h := datasource.NewDefaultPropertyHandler(m.parser, m.updater)
+	panicArmed, panicFired := false, false
+	h := datasource.NewDefaultPropertyHandler(m.parser, func(data interface{}) error {
+		if panicArmed {
+			panicFired = true
+			panic("injected updater panic")
+		}
+		return m.updater(data)
+	})
 	var obs []hobs
 	for _, o := range c.Ops {
 		faultArmed = o.Arm && m.fault
 		faultFired = false
+		panicArmed, panicFired = o.ArmPanic, false
 		c0 := genCalls
 		ret := safeHandle(h, []byte(c.Payloads[o.P]))
-		faultArmed = false
-		obs = append(obs, hobs{Ret: ret, Fired: faultFired, GenCalls: genCalls - c0, InForce: inForceFPs(m)})
+		faultArmed, panicArmed = false, false
+		obs = append(obs, hobs{Ret: ret, Fired: faultFired, Panicked: panicFired, GenCalls: genCalls - c0, InForce: inForceFPs(m)})
 	}
 	if err := m.clear(); err != nil {
 		panic(err)
@@ -178,6 +190,15 @@ func monitorH(c hcase, m *module, cls []pcls, obs []hobs, rep *emit.Report) (non
 				return
 			}
 		case "nil":
+			if ob.Panicked {
+				// the updater panicked before clearing: nothing may have changed; the panic is swallowed by Handle
+				if !sameStrings(ob.InForce, before) {
+					fail("C18_empty_clears", "half-applied-after-updater-panic", "rules in force changed although the updater panicked")
+					return
+				}
+				rejected = true
+				break
+			}
 			if ob.Ret != 0 {
 				fail("C18_empty_clears", "empty-payload-error", "Handle returned an error for the empty payload")
 				return
@@ -201,7 +222,15 @@ func monitorH(c hcase, m *module, cls []pcls, obs []hobs, rep *emit.Report) (non
 				fail("C18_applied_exactly", "parser-updater-type-mismatch", "the parser's value is not of the updater's type")
 				return
 			}
-			if ob.Fired {
+			if ob.Panicked {
+				// the updater panicked (recovered inside Handle, whatever it returns): nothing was applied, and the
+				// payload must not be remembered as applied - checked at its re-delivery below
+				if !sameStrings(ob.InForce, before) {
+					fail("C18_applied_exactly", "half-applied-after-updater-panic", "rules in force changed although the updater panicked")
+					return
+				}
+				rejected = true
+			} else if ob.Fired {
 				// the loader failed: the payload must be rejected as a whole and retried later
 				if ob.Ret != 1 {
 					fail("C18_applied_exactly", "loader-failure-reported-as-success", "the loader failed but Handle returned nil")
@@ -219,7 +248,7 @@ func monitorH(c hcase, m *module, cls []pcls, obs []hobs, rep *emit.Report) (non
 				}
 				if !sameStrings(ob.InForce, want) {
 					sig := "nil-return-but-valid-rules-not-in-force"
-					if i > 0 && c.Ops[i-1].P == o.P && obs[i-1].Fired {
+					if i > 0 && c.Payloads[c.Ops[i-1].P] == c.Payloads[o.P] && (obs[i-1].Fired || obs[i-1].Panicked) {
 						sig = "retry-after-failed-update-skipped"
 					}
 					fail("C18_applied_exactly", sig, fmt.Sprintf("in force %d rules, the payload's valid rules are %d: got %v want %v", len(ob.InForce), len(want), ob.InForce, want))
@@ -228,7 +257,7 @@ func monitorH(c hcase, m *module, cls []pcls, obs []hobs, rep *emit.Report) (non
 			}
 		}
 		// identical re-delivery after a delivery that returned nil is a no-op
-		if i > 0 && c.Payloads[c.Ops[i-1].P] == c.Payloads[o.P] && obs[i-1].Ret == 0 {
+		if i > 0 && c.Payloads[c.Ops[i-1].P] == c.Payloads[o.P] && obs[i-1].Ret == 0 && !obs[i-1].Panicked && !ob.Panicked {
 			redelivered = true
 			if k.Kind == "val" && !k.SelfEq {
 				// DeepEqual is not reflexive on this value: the payload is loaded again
@@ -301,8 +330,23 @@ func coqH(c hcase, cls []pcls, obs []hobs) string {
 	}
 	sort.Strings(valid)
 	var ops, os_ []string
+	anyPanic := false
+	for i := range c.Ops {
+		anyPanic = anyPanic || obs[i].Panicked
+	}
 	for i, o := range c.Ops {
-		ops = append(ops, emit.Tuple(strconv.Itoa(o.P), emit.B(obs[i].Fired)))
+		if anyPanic {
+			k := 0
+			if obs[i].Fired {
+				k = 1
+			}
+			if obs[i].Panicked {
+				k = 2
+			}
+			ops = append(ops, emit.Tuple(strconv.Itoa(o.P), strconv.Itoa(k)))
+		} else {
+			ops = append(ops, emit.Tuple(strconv.Itoa(o.P), emit.B(obs[i].Fired)))
+		}
 		var rs []int
 		for _, fp := range obs[i].InForce {
 			if v, ok := ids[fp]; ok {
@@ -318,7 +362,11 @@ func coqH(c hcase, cls []pcls, obs []hobs) string {
 		}
 		os_ = append(os_, emit.Tuple(strconv.Itoa(obs[i].Ret), emit.List(rss)))
 	}
-	return fmt.Sprintf("HCase %d %d %s %s %s %s", c.ID, c.Mod, emit.List(valid), emit.List(tab), emit.List(ops), emit.List(os_))
+	ctor := "HCase"
+	if anyPanic {
+		ctor = "PCase" // fault kinds per delivery: 0 none, 1 loader fault fired, 2 updater panicked
+	}
+	return fmt.Sprintf("%s %d %d %s %s %s %s", ctor, c.ID, c.Mod, emit.List(valid), emit.List(tab), emit.List(ops), emit.List(os_))
 }
 
 // ---- payload generation ----------------------------------------------------------------------------
@@ -423,7 +471,15 @@ func genH(r *rng.R, id int, ms []*module) hcase {
 		if prev >= 0 && r.Chance(35, 100) {
 			p = prev
 		}
-		c.Ops = append(c.Ops, hop{P: p, Arm: m.fault && r.Chance(1, 3)})
+		// a failing step (loader error / updater panic) is often followed by a re-delivery of the same payload
+		if n0 := len(c.Ops); n0 > 0 && (c.Ops[n0-1].Arm || c.Ops[n0-1].ArmPanic) && r.Chance(2, 3) {
+			p = prev
+		}
+		o := hop{P: p, Arm: m.fault && r.Chance(1, 3)}
+		if !o.Arm && r.Chance(1, 7) {
+			o.ArmPanic = true
+		}
+		c.Ops = append(c.Ops, o)
 		prev = p
 	}
 	return c
@@ -548,6 +604,12 @@ func main() {
 			if obs[i].Fired {
 				rep.Count("loader_fault_fired", 1)
 			}
+			if obs[i].Panicked {
+				rep.Count("updater_panicked", 1)
+			}
+			if i > 0 && c.Payloads[c.Ops[i-1].P] == c.Payloads[o.P] && (obs[i-1].Fired || obs[i-1].Panicked) {
+				rep.Count("redelivery_after_failed_step", 1)
+			}
 			if i > 0 && c.Ops[i-1].P == o.P {
 				rep.Count("identical_redelivery", 1)
 			}
@@ -627,6 +689,7 @@ func main() {
 	rep.Notes = append(rep.Notes,
 		"classification of every payload (undecodable / empty / rule list with nil elements) is taken from the real *JsonArrayParser (encoding/json is an oracle); validity of a decoded rule from the module's IsValidRule",
 		"loader failures are injected through the public generator extension points of circuitbreaker and hotspot (a custom strategy whose generator panics while armed)",
+		"updater panics are injected for every module through a custom PropertyUpdater (the module's updater wrapped: it panics before touching the rule manager while armed); a failing step is followed by a re-delivery of the same payload with probability 2/3",
 		"file datasource part is partial: fsnotify delivery and timing are runtime behaviour; the harness polls with a deadline",
 		"wire cases: float64 fields are compared by IEEE bits against strconv.ParseFloat of the literal (oracle table); hotspot SpecificItems against an independent conversion; payloads outside the model's byte subset (escapes, non-ASCII, 3+ digit exponents) are counted and not compared")
 	if sh != nil {
